@@ -378,3 +378,27 @@ def r_C15h(root):
         ob("C15", "C15.h", M, "_abandon_user_objects", "%s() for every abandoned model with a parser" % nm, ok)
         if not ok: out.append(Finding("C15", "C15.h", M, "_abandon_user_objects", "%s() under %s%s" % (nm, "" if not extra or extra[0][1] else "not ", extra[0][0][:70] if extra else "no loop over the models"), "the cleanup of an abandoned model is skipped when %s: per-object records (which hold `parent`, i.e. the whole partial model) stay in user_class._tx_obj_attrs" % ("%s%s" % ("" if extra[0][1] else "not ", extra[0][0][:70]) if extra else "?"), witness="multi-file load; a user-class __init__ raises for an object of an imported file while further objects of that file are pending"))
     return inst, out
+
+def r_C15i(root):
+    """C15.i  decided by evaluating _release_user_obj_attrs (sa/pyeval.py): with records {1, 2, 9} on a user class and the
+       ids [1, 2] recorded by this parser (object 1 finished, object 2 still open), the call removes exactly 1 and 2 — it
+       leaves the records of other loads (9) alone and does not depend on an object being finished — and forgets the ids."""
+    import ast
+    from sa import pyeval
+    M = "textx/model.py"; out = []; inst = 1
+    fn = find_i(root, M, "get_model_parser.TextXModelParser._release_user_obj_attrs")
+    cls_a = {"._tx_obj_attrs": {1: {"a": 1}, 2: {"a": 2}, 9: {"a": 9}}, ".__name__": "A"}
+    cls_b = {"._tx_obj_attrs": {}, ".__name__": "B"}
+    finished = {".__class__": cls_a, ".name": "o1"}
+    env = {"self.metamodel.user_classes": {"A": cls_a, "B": cls_b}, "self._user_obj_ids": [1, 2], "self._user_class_inst": [finished], "self": {"._user_obj_ids": [1, 2], "._user_class_inst": [finished], ".metamodel": {".user_classes": {"A": cls_a, "B": cls_b}}}}
+    try: pyeval.run_block(fn.body, env)
+    except pyeval.Unsupported as e: raise AnalysisError("_release_user_obj_attrs: outside the evaluated subset: %s" % e)
+    except pyeval.Raised as e:
+        out.append(Finding("C15", "C15.i", M, "TextXModelParser._release_user_obj_attrs", "release raises %s" % e.cls, "releasing the per-object records raises")); return inst, out
+    left = sorted(cls_a["._tx_obj_attrs"])
+    ok = left == [9]
+    for pr in ("C15", "C18", "C14"): ob(pr, "C15.i", M, "TextXModelParser._release_user_obj_attrs", "records {1, 2, 9}, recorded ids [1, 2] -> records left %s" % left, ok)
+    if not ok:
+        why = "records of objects that were still being built (%s) stay in user_class._tx_obj_attrs: they hold `parent`, so the partial model stays reachable" % [x for x in left if x != 9] if any(x != 9 for x in left) else "the records of another load of the same metamodel (9) are dropped as well: the importing models lose their collected attributes and markers"
+        for pr in ("C15", "C18", "C14"): out.append(Finding(pr, "C15.i", M, "TextXModelParser._release_user_obj_attrs", "records left: %s" % left, "a failed parser must release exactly the records of the objects it created; " + why, witness="user classes; a load that fails while a user object is half built / while an imported file is parsed"))
+    return inst, out
